@@ -430,11 +430,21 @@ theorem reachable_object_survives (pre post : Heap) (h : checkCollection pre pos
   obtain ⟨R, _, _, hfw, _, hobj, _⟩ := validator_sound pre post h
   obtain ⟨b, hab, hb⟩ := hfw a ha
   obtain ⟨oa, ob, h1, h2, hs, hz, hh, hr⟩ := hobj a b hab
-  refine ⟨oa, b, ob, h1, h2, hb, hs, hz, hh, ?_⟩
-  clear h1 h2 hs hz hh
-  induction hr with
-  | nil => rfl
-  | cons _ _ ih => simp [ih]
+  exact ⟨oa, b, ob, h1, h2, hb, hs, hz, hh, forall2_length hr⟩
+
+/-- a small moving collection: two objects referencing each other, a null root, an interior root -/
+def exPre : Heap := { roots := [⟨16, 0⟩, ⟨0, 0⟩, ⟨32, 8⟩],
+                      objs := [⟨16, 7, 24, 99, [32, 0]⟩, ⟨32, 9, 16, 5, [16]⟩, ⟨48, 1, 16, 1, []⟩] }
+def exPost : Heap := { roots := [⟨400, 0⟩, ⟨0, 0⟩, ⟨200, 8⟩],
+                       objs := [⟨200, 9, 16, 5, [400]⟩, ⟨400, 7, 24, 99, [200, 0]⟩] }
+
+example : checkCollection exPre exPost = .ok () := by rfl
+example : Reach exPre 32 := Reach.step (o := ⟨16, 7, 24, 99, [32, 0]⟩) (Reach.root (r := ⟨16, 0⟩) (by simp [exPre]) (by decide)) (by decide) (by decide) (by decide)
+/-- the validator is not vacuous: a lost edge, a changed payload, a stale root are rejected -/
+example : (checkCollection exPre { exPost with objs := [⟨200, 9, 16, 5, [0]⟩, ⟨400, 7, 24, 99, [200, 0]⟩] }).isOk = false := by decide
+example : (checkCollection exPre { exPost with objs := [⟨200, 9, 16, 6, [400]⟩, ⟨400, 7, 24, 99, [200, 0]⟩] }).isOk = false := by decide
+example : (checkCollection exPre { exPost with roots := [⟨400, 0⟩, ⟨0, 0⟩, ⟨200, 0⟩] }).isOk = false := by decide
+example : (checkCollection exPre { exPost with roots := [⟨16, 0⟩, ⟨0, 0⟩, ⟨200, 8⟩] }).isOk = false := by decide
 
 /-- nothing new becomes reachable either: every object reachable after an accepted collection is the
 image of an object reachable before it (the collector did not resurrect or invent references). -/
@@ -445,6 +455,8 @@ theorem nothing_new_reachable (pre post : Heap) (h : checkCollection pre post = 
   obtain ⟨a, hab, ha⟩ := hbw b hb
   obtain ⟨oa, ob, h1, h2, hs, _, hh, _⟩ := hobj a b hab
   exact ⟨a, oa, ob, ha, h1, h2, hs, hh⟩
+
+example : Reach exPost 400 := Reach.root (r := ⟨400, 0⟩) (by simp [exPost]) (by decide)
 
 end CollectionValidator
 
